@@ -37,7 +37,7 @@ from webob.descriptors import (
 from webob.etag import AnyETag, IfRange, NoETag, etag_property
 from webob.headers import EnvironHeaders
 from webob.multidict import GetDict, MultiDict, NestedMultiDict, NoVars
-from webob.util import bytes_, parse_qsl_text, text_, url_unquote
+from webob.util import bytes_, parse_qsl_text, read_text_body, text_, url_unquote
 
 try:
     import simplejson as json
@@ -1350,13 +1350,12 @@ class BaseRequest:
 
         clen = r.content_length
 
-        if clen is None:
+        if is_text:
+            body = bytes_(read_text_body(fp, clen, "utf-8"), "utf-8")
+        elif clen is None:
             body = fp.read()
         else:
             body = fp.read(clen)
-
-        if is_text:
-            body = bytes_(body, "utf-8")
         r.body = body
 
         return r
